@@ -5,7 +5,8 @@ from props import searchprop as SP
 def engine_checks(case, eng):
     out = []
     for r in eng["results"]:
-        if case["group"] == "cut" and r.get("cut", -1) >= 0 and len(r.get("writes", [])) > r["cut"]:
+        # (k<K> is not an interruption: no limit is set and only the clock jumps; the run must stay complete)
+        if case["group"] == "cut" and "k" not in r.get("spec", "") and r.get("cut", -1) >= 0 and len(r.get("writes", [])) > r["cut"]:
             out.append({"spec": r.get("spec"), "writes_before_cut": r["cut"], "writes_total": len(r["writes"]),
                         "first_write_after_cut": r["writes"][r["cut"]],
                         "why": "cache write made after the search had been interrupted (stop or clock at that leaf)"})
@@ -27,15 +28,48 @@ def run(ctx):
     violations, cov = [], {"samples": []}
 
     def relevant(case, dv):
-        return case["group"] in ("budget", "budget-probe") and dv["field"] in (
+        return case["group"] in ("budget", "budget-probe", "cut", "cut-full") and dv["field"] in (
             "writes", "nodes", "engine-panic", "model-setup", "engine-setup-panic")
-    SP.corr(ctx, prop, ("budget", "cut"), relevant, "cache writes of an interrupted search differ from the model", violations, cov,
+    r = SP.corr(ctx, prop, ("budget", "cut"), relevant, "cache writes of an interrupted search differ from the model", violations, cov,
             engine_checks=engine_checks)
+    # C13_prefix on the engine itself: the writes of every interrupted run are an initial segment of the
+    # writes of the same search left uninterrupted (key, score, depth, bound, move, node counter)
+    if r:
+        full = {}
+        for c, e in zip(r["cases"], r["engine"]):
+            if c["group"] in ("cut-full", "budget-probe") and e["results"] and not e["results"][0].get("panic"):
+                full[(c["group"] == "cut-full", c["fen"], tuple(c["moves"]), c["depth"])] = [w[:6] for w in e["results"][0]["writes"]]
+        npre = nbad = 0
+        for c, e in zip(r["cases"], r["engine"]):
+            if c["group"] not in ("cut", "budget") or not e["results"] or e["results"][0].get("panic"):
+                continue
+            d = c.get("depth") or SP.S.parse_spec(c["specs"][0])[0]
+            f = full.get((c["group"] == "cut", c["fen"], tuple(c["moves"]), d))
+            if f is None:
+                continue
+            w = [x[:6] for x in e["results"][0]["writes"]]
+            npre += 1
+            if w != f[:len(w)]:
+                nbad += 1
+                if nbad <= 2:
+                    j = 0
+                    while j < min(len(w), len(f)) and w[j] == f[j]:
+                        j += 1
+                    rp = SP.C.write_replay(prop, {
+                        "kind": "the cache writes of an interrupted search are not an initial segment of the writes of the same search left uninterrupted (theorem C13_prefix; observed on the engine alone)",
+                        "case": c, "first_difference_at_write": j, "interrupted": w[j] if j < len(w) else None,
+                        "uninterrupted": f[j] if j < len(f) else None,
+                        "replay_cmd": "printf '%s | %s | %s\\n' | %s verif search" % (c["fen"], " ".join(c["moves"]), ";".join(c["specs"]), SP.C.ENGINE)})
+                    violations.append({"replay": rp})
+        cov["prefix_checked_runs"] = npre
+        cov["prefix_failures"] = nbad
     cov["rule"] = ("positions x EVERY node budget from 1 to the size of the full search (all of them at depth<=2, "
                    "strided above 150): the complete cache-write trace (key, score, depth, bound, move, node counter, flag) "
                    "is compared with the model's, and every engine write is checked to be made below the budget with the flag set; "
-                   "plus interruptions by stop and by the game clock forced at the K-th leaf evaluation (K over a Fibonacci-like grid): no cache "
-                   "write may follow the cut (observed on the engine)")
+                   "plus interruptions by stop, by the game clock and by movetime forced at the K-th leaf evaluation (K over a Fibonacci-like grid): "
+                   "the engine reports which flag load / clock reading first saw the interruption (guarded counters LOADS/READS, clock skew), the model "
+                   "is run with exactly that oracle and the complete write traces, node counts and outputs are compared; no cache write may follow the "
+                   "cut; and every interrupted trace must be an initial segment of the uninterrupted one (C13_prefix, on the engine itself)")
     return SP.finish(prop, gate, violations, cov)
 
 
